@@ -1,17 +1,265 @@
+import IceSpec.AgentMonParse
+import IceSpec.AgentMonState
+import IceSpec.AgentMonC06
+import IceSpec.AgentMonC02
+import IceSpec.AgentMonC03
+import IceSpec.AgentMonC07
+import IceSpec.AgentMonC01
 /-!
 # Spec monitors over the IMPLEMENTATION's observable trace of the `agent` component
 
 `observe` is fed every (operation, implementation output) line of a session and returns the clauses of
 C01–C07 / C20 that the implementation's own outputs violate.  It parses the canonical digest printed by
 the harness (see harness/inpkg/zz_verif_agent_test.go) and never looks at the model.
+
+Layout: `AgentMonParse` (digest parser), `AgentMonState` (what is remembered, hub rules),
+`AgentMonC06` (C06 + C04), `AgentMonC02` (C02 + C05), `AgentMonC03` (C03 + C20), `AgentMonC07`,
+`AgentMonC01`; this file wires them to the operations.  See notes/AgentMon.md for the clause list.
 -/
 namespace IceSpec.AgentMon
 
-structure MonState where
-  lines : Nat := 0
-  deriving Inhabited
+def cfgInfo (cfg : String) : AgInfo :=
+  let l := kvs cfg
+  let u := (look l "u").getD "_"
+  let p := (look l "p").getD "_"
+  let lite := look l "lite" == some "1"
+  let disc := ((look l "disc").bind String.toNat?).getD (if lite then 10000 else 5000)
+  let fail := ((look l "fail").bind String.toNat?).getD 25000
+  { disc := disc, fail := fail,
+    checkDeadline := if fail == 0 then 0 else (if lite && (look l "disc").isNone then 5000 else disc) + fail,
+    lite := lite, ucp := look l "ucp" == some "1", renom := look l "renom" == some "1",
+    disc0 := look l "disc" == some "0",
+    tb := ((look l "tb").bind String.toNat?).getD 0,
+    ka := ((look l "ka").bind String.toNat?).getD 2000,
+    waits := [((look l "hw").bind String.toNat?).getD 0, ((look l "sw").bind String.toNat?).getD 500,
+              ((look l "pw").bind String.toNat?).getD 1000, ((look l "rw").bind String.toNat?).getD 2000],
+    blk := match look l "blk" with | some v => (v.splitOn "+").filterMap String.toNat? | none => [],
+    credsKnown := u != "_" && p != "_" && u != "" && p != "",
+    lu := tokN u, lp := tokN p }
 
-def observe (s : MonState) (_toks : List String) (_impl : String) : MonState × List (String × String) :=
-  ({ s with lines := s.lines + 1 }, [])
+def c08Of (impl : String) : Verdicts :=
+  if impl.startsWith "PANIC" then [("C08", "the operation panicked: " ++ (impl.take 200).toString)]
+  else if impl.startsWith "SESSION-DIED" then [("C08", "the session died: " ++ (impl.take 200).toString)]
+  else if impl.startsWith "ended " then [("C08", "the session did not end cleanly (leaked or deadlocked goroutines): " ++ impl)]
+  else []
+
+/-- inbound application data of this op: (receiver, local addr, source as seen, length, stun-like) -/
+structure DataIn where
+  toB : Bool
+  la : Nat
+  src : Nat
+  len : Nat
+  stunLike : Bool
+
+structure OpCtx where
+  tgt : Tgt := .nobody
+  dataIn : Option DataIn := none
+  /-- the target of an inbound op could not be decided -/
+  unknownTgt : Bool := false
+
+def isOk (res : String) : Bool := res == "ok"
+
+/-- per-agent part of one step; returns verdicts and the updated info -/
+def agentStep (s : MonState) (toks : List String) (isB : Bool) (x : AgInfo) (p c : AgD) (line : LineD) (ctx : OpCtx) (t1 : Nat)
+    (uncertain : Bool) : Verdicts × AgInfo :=
+  let w := if isB then "B" else "A"
+  let res := line.res
+  let out := line.out
+  let opIs (name : String) : Bool := match toks with | n :: who :: _ => n == name && who == w | _ => false
+  let isRestart := opIs "restart" && isOk res
+  -- the digest of a closed agent hides its pairs: from the `close` op on it is judged as closed
+  let x := if opIs "close" then { x with closed := true } else x
+  let changedP := p.pRaw != c.pRaw
+  let changedAny := changedP || p.rRaw != c.rRaw || p.lRaw != c.lRaw || p.sel != c.sel
+  let inc? : Option Inc := match ctx.tgt with | .to i => if i.toB == isB then some i else none | _ => none
+  -- C06
+  let v06 := (if changedAny then c06StaticNew x p c else []) ++ (if changedP then c06Dyn x p c else []) ++ (if isRestart then c06Restart c else [])
+  -- C04
+  let (v04, lastCb) := if c.cs.isEmpty && c.st == x.lastCb && c.st == p.st && c.sel == p.sel then ([], x.lastCb) else c04 x isRestart c
+  let xt := { x with checkEnter := if c.cs.contains "Checking" then some (s.now, t1) else x.checkEnter,
+                     firstCheckEnter := if x.firstCheckEnter.isNone && c.cs.contains "Checking" then some s.now else x.firstCheckEnter }
+  let v04t := if x.closed then [] else c04Timing xt p c s.now t1
+  -- C02 / C05
+  let v02 := match inc? with | some i => c02c05 s.now x i p c out | none => []
+  -- C03 / C20
+  let v03 := if uncertain then (if c.sel != p.sel then c03Select isB x p c .unknown else []) else (if c.sel != p.sel then c03Select isB x p c ctx.tgt else [])
+  let (v20, maxAcc) : Verdicts × Option Nat := match inc? with
+    | some i => if uncertain then ([], x.maxAcc) else
+      let (v, m) := c20Request x i p c
+      (v ++ (if x.credsKnown then c20Response x i p c else []), m)
+    | none => ([], x.maxAcc)
+  -- C07
+  let len3 : Nat := match toks with | _ :: _ :: l :: _ => (l.toNat?).getD 0 | _ => 0
+  let v07op : Verdicts × List Nat :=
+    match toks with
+    | ["write", _, _, sl] => if opIs "write" then (c07Write x p c res out len3 (sl == "1"), x.rxq) else ([], x.rxq)
+    | ["writepair", _, id, l, sl] =>
+      if opIs "writepair" then (c07WritePair x p res out ((id.toNat?).getD 0) ((l.toNat?).getD 0) (sl == "1"), x.rxq) else ([], x.rxq)
+    | ["read", _] => if opIs "read" then c07Read x p c res else ([], x.rxq)
+    | _ => ([], x.rxq)
+  let (v07a, rxq) := v07op
+  let isStart := opIs "start"
+  let v07b : Verdicts :=
+    if x.closed || isStart then [] else
+    let wlen : Nat := match toks with | ["writepair", _, _, l, _] => (l.toNat?).getD 0 | _ => 0
+    (if opIs "write" then []
+     else if opIs "writepair" then (if c.bs == p.bs || c.bs == p.bs + wlen then [] else [("C07", "sent-bytes counter moved by more than the payload of WriteToPair")])
+     else if c.bs != p.bs then [("C07", s!"sent-bytes counter moved from {p.bs} to {c.bs} without a Write")] else []) ++
+    (if opIs "read" then [] else if c.br != p.br then [("C07", s!"received-bytes counter moved from {p.br} to {c.br} without a Read")] else [])
+  let accepted : Option Nat :=     -- payload length accepted for the reader in this op
+    match ctx.dataIn with
+    | some d => if d.toB == isB && !d.stunLike && dataAccepted p d.la d.src then some d.len else none
+    | none => none
+  let sentExp : Option (Option Nat) :=
+    match toks with
+    | ["write", _, _, sl] =>
+      if !opIs "write" then some none
+      else if sl == "1" || !res.startsWith "ok:" then some none
+      else if len3 == 0 then none else some (some len3)
+    | ["writepair", _, id, l, sl] =>
+      if !opIs "writepair" then some none
+      else if sl == "1" || !res.startsWith "ok:" || id.toNat? != p.sel then some none
+      else match l.toNat? with | some 0 => none | some n => some (some n) | none => none
+    | _ => some none
+  let recvExp : Option (Option Nat) :=
+    if ctx.unknownTgt then none
+    else match accepted with | some 0 => none | some n => some (some n) | none => some none
+  let expectNone (e : Option (Option Nat)) : Bool := match e with | some (some _) => false | _ => true
+  let v07c := if x.closed || (p.pRaw == c.pRaw && expectNone sentExp && expectNone recvExp) then [] else c07Counters p c sentExp recvExp
+  -- C01 safety
+  let v01 := c01Safety s isB p c
+  -- ---- update ----
+  let x := { x with lastCb := lastCb, maxAcc := if c.ctl != p.ctl then none else maxAcc,
+                    checkEnter := xt.checkEnter, firstCheckEnter := xt.firstCheckEnter }
+  let x := if c.cs.isEmpty then x else
+    { x with everFailed := x.everFailed || c.cs.contains "Failed", everConnected := x.everConnected || c.cs.contains "Connected",
+             addLocalWhileFailed := if c.cs.contains "Failed" then false else x.addLocalWhileFailed }
+  let x := if opIs "addlocal" && p.st == "Failed" then { x with addLocalWhileFailed := true } else x
+  let x := if changedP then
+      { x with everIds := c.pairs.foldl (fun l q => if l.contains q.id then l else q.id :: l) x.everIds,
+               failedPairs := c.pairs.foldl (fun l q => if q.st == "f" && !l.contains (q.la, q.ra) then (q.la, q.ra) :: l else l) x.failedPairs }
+    else x
+  let x := if p.lRaw != c.lRaw then { x with everLocal := c.locs.foldl (fun l q => if l.contains q.addr then l else q.addr :: l) x.everLocal } else x
+  let mine := out.filter fun d => d.kind == .req && d.tid.startsWith (w ++ "#")
+  let x := if mine.isEmpty then x else
+    { x with emitted := mine.foldl (fun l d => { tid := d.tid, src := d.src, dst := d.dst, uc := d.uc, nom := d.nom, t0 := s.now, t1 := t1, gen := x.gen } :: l) x.emitted }
+  let x := match inc? with
+    | some i =>
+      let d := i.d
+      let x := if d.kind == DgKind.suc && changedP && (c.pairs.any fun q => match findPairId p q.id with | some o => q.respRecv > o.respRecv | none => q.respRecv > 0)
+        then { x with answered := d.tid :: x.answered } else x
+      if d.kind == DgKind.req && d.binding && x.credsKnown && reqAuth x d && (d.uc || d.nom.isSome) && !conflicting p.ctl d && srcAcceptable x p i.src
+         && !x.nomReq.contains (i.la, i.src)
+      then { x with nomReq := (i.la, i.src) :: x.nomReq } else x
+    | none => x
+  let rxq := match accepted with | some n => rxq ++ [n] | none => rxq
+  let x := match accepted with
+    | some n => { x with rxq := rxq, rxBytes := x.rxBytes + n, rxOk := x.rxOk && n ≤ 8192 && x.rxBytes + n ≤ 400000 }
+    | none => { x with rxq := rxq }
+  let x := if ctx.unknownTgt then { x with rxOk := false } else x
+  -- ops that change what the monitor knows about the agent
+  let x := match toks with
+    | ["start", _, ctl, ru, rp] =>
+      if opIs "start" && isOk res then { x with started := true, ru := tokN ru, rp := tokN rp, startRole := some (ctl == "1"), maxAcc := none } else x
+    | ["creds", _, ru, rp] => if opIs "creds" && isOk res then { x with ru := tokN ru, rp := tokN rp } else x
+    | ["restart", _, u, pw] =>
+      if isRestart then
+        { x with lu := tokN u, lp := tokN pw, ru := "", rp := "", credsKnown := u != "_" && pw != "_", gen := x.gen + 1,
+                 nomReq := [], maxAcc := none, addLocalWhileFailed := false, everConnected := false, everFailed := false, failedPairs := [] }
+      else x
+    | ["close", _] => if opIs "close" then { x with closed := true } else x
+    | _ => x
+  (v06 ++ v04 ++ v04t ++ v02 ++ v03 ++ v20 ++ v07a ++ v07b ++ v07c ++ v01, x)
+
+def netsOf (s : MonState) (p c : AgD) : MonState :=
+  if p.lRaw == c.lRaw && p.rRaw == c.rRaw then s else
+  let n0 := s.seenNet0 || c.locs.any (·.net == 0) || c.rems.any (·.net == 0)
+  let n1 := s.seenNet1 || c.locs.any (·.net != 0) || c.rems.any (·.net != 0)
+  { s with seenNet0 := n0, seenNet1 := n1, mixedNets := n0 && n1 }
+
+def stepActive (s : MonState) (toks : List String) (line : LineD) : MonState × Verdicts :=
+  let p := s.prev
+  -- the op, the hub and who receives what
+  let d? : Option Dg := match toks with
+    | ["deliver", k] | ["dup", k] => k.toNat?.bind fun k => s.infl[k]?
+    | _ => none
+  let infl := match toks with
+    | ["deliver", k] | ["drop", k] => (match k.toNat? with | some k => removeAt s.infl k | none => s.infl)
+    | _ => s.infl
+  let tgt : Tgt := match toks with
+    | ["deliver", _] | ["dup", _] => (match d? with | some d => s.resolveDeliver d | none => .nobody)
+    | ["inject", w, la, src, spec] => s.resolveInject w la src (dgOfSpec spec)
+    | ["data", w, la, src, _, _] => s.resolveInject w la src (some { kind := .data })
+    | _ => .nobody
+  let dataIn : Option DataIn := match toks, tgt with
+    | ["data", _, _, _, len, sl], .to i => some { toB := i.toB, la := i.la, src := i.src, len := (len.toNat?).getD 0, stunLike := sl == "1" }
+    | _, .to i => if i.d.kind == .data then some { toB := i.toB, la := i.la, src := i.src, len := i.d.len, stunLike := false } else none
+    | _, _ => none
+  -- for a `data` op the Inc carries no STUN message: hide it from the STUN clauses
+  let tgtStun : Tgt := match toks with | "data" :: _ => (match tgt with | .to _ => .nobody | t => t) | _ => tgt
+  let unknownTgt := match tgt with | .unknown => true | _ => false
+  let ctx : OpCtx := { tgt := tgtStun, dataIn := dataIn, unknownTgt := unknownTgt }
+  let dt : Nat := match toks with | ["adv", d] => (d.toNat?).getD 0 | _ => 0
+  let t1 := s.now + dt
+  let uncertain := s.uncertainFlag || unknownTgt
+  -- agents
+  let (va, ia) := agentStep s toks false s.a p.a line.a line ctx t1 uncertain
+  let (vb, ib) := match p.b, line.b with
+    | some pb, some cb => agentStep s toks true s.b pb cb line ctx t1 uncertain
+    | _, _ => ([], s.b)
+  -- cross-agent clauses
+  let vEm := if line.out.isEmpty then [] else c03Emitted s.a s.b line.out
+  let vMirror := match p.b, line.b with
+    | some pb, some cb => c01Mirror s p.a line.a pb cb
+    | _, _ => []
+  let s1 : MonState := { s with a := ia, b := ib }
+  let vMark := match toks, line.b with
+    | ["mark", "fairend"], some cb => c01Converged s1 line.a cb
+    | _, _ => []
+  -- session-level bookkeeping
+  let s1 := netsOf s1 p.a line.a
+  let s1 := match p.b, line.b with | some pb, some cb => netsOf s1 pb cb | _, _ => s1
+  let peerCreds (w : String) : String × String := if w == "A" then (s.b.lu, s.b.lp) else (s.a.lu, s.a.lp)
+  let s1 : MonState := match toks with
+    | ["nat", a, m] =>
+      (match a.toNat?, m.toNat? with
+       | some a, some m => { s1 with nat := s1.nat ++ [(a, m)], topoLate := s1.topoLate || s1.topoFrozen }
+       | _, _ => s1)
+    | ["block", a, b] =>
+      (match a.toNat?, b.toNat? with
+       | some a, some b => { s1 with blocked := s1.blocked ++ [(a, b)], topoLate := s1.topoLate || s1.topoFrozen }
+       | _, _ => s1)
+    | "addlocal" :: _ | "addremote" :: _ => { s1 with topoFrozen := true }
+    | ["start", w, _, ru, rp] => { s1 with topoFrozen := true, badCreds := s1.badCreds || (s.hasB && (tokN ru, tokN rp) != peerCreds w) }
+    | ["creds", w, ru, rp] => { s1 with anyCreds := true, badCreds := s1.badCreds || (s.hasB && (tokN ru, tokN rp) != peerCreds w) }
+    | "inject" :: _ | "data" :: _ => { s1 with forged := true }
+    | "restart" :: _ => { s1 with anyRestart := true }
+    | "close" :: _ => { s1 with anyClose := true }
+    | "renom" :: _ => if line.res == "ok" then { s1 with anyRenom := true } else s1
+    | _ => s1
+  let s1 : MonState := match toks with
+    | ["adv", _] => if s.infl.isEmpty then { s1 with fairRounds := s.fairRounds + 1, fairTime := s.fairTime + dt } else { s1 with fairRounds := 0, fairTime := 0 }
+    | ["deliver", _] | ["mark", _] => s1
+    | _ => { s1 with fairRounds := 0, fairTime := 0 }
+  ({ s1 with prev := line, infl := infl ++ line.out, now := t1, uncertainFlag := uncertain, lines := s.lines + 1 },
+   va ++ vb ++ vEm ++ vMirror ++ vMark)
+
+def observe (s : MonState) (toks : List String) (impl : String) : MonState × List (String × String) :=
+  match toks with
+  | "new" :: cfgA :: rest =>
+    let cfgB := match rest with | b :: _ => b | [] => "-"
+    match parseLine impl {} none with
+    | none => ({}, c08Of impl)
+    | some line =>
+      let s : MonState := { active := true, prev := line, hasB := cfgB != "-" && line.b.isSome, a := cfgInfo cfgA,
+                            b := if cfgB == "-" then {} else cfgInfo cfgB, infl := line.out }
+      (s, [])
+  | ["end"] => ({}, c08Of impl)
+  | _ =>
+    if !s.active then (s, c08Of impl)
+    else match parseLine impl s.prev.a s.prev.b with
+      | none => ({}, c08Of impl)
+      | some line =>
+        if line.b.isSome != s.prev.b.isSome then ({}, []) else stepActive s toks line
 
 end IceSpec.AgentMon
